@@ -1,5 +1,8 @@
 import FqModel.Recover
+import FqModel.Recover2
 import Proofs.C06
+import Proofs.C06DProg
+import FqModel.Gen.DecoderSites
 /-!
   C06 — "no input makes a decoder crash fq".  Claimed PARTIAL (manifest category `other`).
 
@@ -277,5 +280,119 @@ theorem errorf_force (s : St) (a : Int) :
   refine ⟨?_, rfl, rfl⟩
   simp only [corePrim]
   cases s.force <;> simp
+
+/-! ### closure: every decoder that only combines decode-API calls with total pure code
+
+  `DProg` (FqModel/Recover2.lean) is a decoder language whose steps are the modelled core primitives, fields with
+  Assert mappers, pure observations (Pos/Len/Force), FieldStruct/FieldArray scopes, FramedFn and sub-decoder calls under
+  their own recover, glued by ARBITRARY Lean functions of the values read. For every such program the hypothesis of
+  `decode_total` is discharged — no enumeration involved. What remains unproved for a real Go decoder is only that it
+  IS such a program (its own indexing, arithmetic, allocation: the fault sites counted by Gen/DecoderSites.lean). -/
+
+/-- CLOSURE THEOREM: every DProg, on every input, from every sane reader state, in every context (root or nested,
+    struct or array), raises only IOError / DecoderError / FormatsError — never a runtime fault -/
+theorem dprog_only_recoverable (p : DProg) (c : Ctx) (rs : RunSt) (hs : BufOK rs.st) :
+    OnlyRec (runDProg p c rs).2 :=
+  (runDProg_good (fun q s a h => core_only_recoverable q s h a) p c rs hs).1
+
+/-- … and when it returns, the reader state is sane again (so programs compose) -/
+theorem dprog_returns_sane (p : DProg) (c : Ctx) (rs rs' : RunSt) (hs : BufOK rs.st)
+    (h : (runDProg p c rs).2 = .ok rs') : BufOK rs'.st :=
+  (runDProg_good (fun q s a h => core_only_recoverable q s h a) p c rs hs).2 rs' h
+
+/-- a DProg as a root DecodeFn: only recoverable panics on every input up to 32 TiB (2^48 bits, `BufOK`) -/
+theorem dprog_decoder_only_recoverable (p : DProg) (rootArray : Bool) (x : Input)
+    (hx : Int.ofNat x.bytes.length * 8 ≤ maxAlloc) (v : PanicV) (h : p.toDecoder rootArray x = .panic v) :
+    v.recoverable = true := by
+  have := dprog_only_recoverable p (rootCtx x.bytes.toArray rootArray) (rootSt x.bytes.length x.force)
+    ⟨by simp [rootSt], by simpa [rootSt] using hx⟩
+  unfold DProg.toDecoder at h
+  split at h
+  · simp at h
+  · rename_i w hw; simp at h; subst h; exact this w hw
+
+/-- COROLLARY: a format group (probe, a single format, any list) made of DProg decoders never ends in a runtime
+    fault — `decode_total` with its hypothesis discharged -/
+theorem decode_total_dprog (g : List (DProg × Bool)) (x : Input) (hx : Int.ofNat x.bytes.length * 8 ≤ maxAlloc)
+    (v : PanicV) : decodeGroup (g.map fun q => q.1.toDecoder q.2) x ≠ .panic v := by
+  intro hp
+  obtain ⟨f, hf, hfx, hv⟩ := decodeLoop_panic _ _ _ _ _ _ hp
+  simp only [List.mem_map] at hf
+  obtain ⟨q, _, rfl⟩ := hf
+  have := dprog_decoder_only_recoverable q.1 q.2 x hx v hfx
+  simp [hv] at this
+
+/-- the three transliterated real decoders (mp3_frame_vbri, vp9_cfm, prores_frame) in particular -/
+theorem real_dprog_decoders_total (x : Input) (hx : Int.ofNat x.bytes.length * 8 ≤ maxAlloc) (v : PanicV) :
+    decodeGroup [vbriProg.toDecoder false] x ≠ .panic v ∧ decodeGroup [vp9Prog.toDecoder true] x ≠ .panic v ∧
+      decodeGroup [proresProg.toDecoder false] x ≠ .panic v :=
+  ⟨decode_total_dprog [(vbriProg, false)] x hx v, decode_total_dprog [(vp9Prog, true)] x hx v,
+    decode_total_dprog [(proresProg, false)] x hx v⟩
+
+/-- non-vacuity: data-dependent control flow really happens. vp9_cfm on `01 01 07 | 09 02 aa bb`: feature 1 reads a
+    one-byte profile inside its 8-bit frame, the unknown id 9 takes the `default:` branch and reads its 2-byte frame
+    raw; (start, len) of the leaves: -/
+example : ((runDProg vp9Prog (rootCtx #[1, 1, 7, 9, 2, 0xaa, 0xbb] true) (rootSt 7 false)).1.map fun l => (l.start, l.len)) =
+    [(0, 8), (8, 8), (16, 8), (24, 8), (32, 8), (40, 16)] := by decide +kernel
+/-- … a length byte that points past the end is an IOError with the partial tree kept (id, length) … -/
+example : (runDProg vp9Prog (rootCtx #[1, 200, 7] true) (rootSt 3 false)).2 = .panic .ioError ∧
+    ((runDProg vp9Prog (rootCtx #[1, 200, 7] true) (rootSt 3 false)).1.map fun l => (l.start, l.len)) = [(0, 8), (8, 8)] := by
+  decide +kernel
+/-- … prores_frame with size < 8: `FramedFn((size-8)*8)` of a negative length is the DecoderError of decode.go:964;
+    a wrong type tag fails its assert unless Options.Force -/
+example : (runDProg proresProg (rootCtx #[0, 0, 0, 7, 0x69, 0x63, 0x70, 0x66] false) (rootSt 8 false)).2 = .panic .decoderError ∧
+    (runDProg proresProg (rootCtx #[0, 0, 0, 9, 0x69, 0x63, 0x70, 0x67] false) (rootSt 8 false)).2 = .panic .ioError ∧
+    (runDProg proresProg (rootCtx #[0, 0, 0, 7, 0x69, 0x63, 0x70, 0x67] false) (rootSt 8 true)).2 = .panic .decoderError := by
+  decide +kernel
+
+/-! ### the regenerated fault-site table (FqModel/Gen/DecoderSites.lean, written by /verif/extract/c06sites on
+    every run from the working tree): which real decoders are candidates for the closure theorem
+
+  The statements below hold for EVERY table the extractor can produce (they relate the columns of the table, they do
+  not pin its contents), so a change of the decoders changes the table but never breaks a proof; the harness compares
+  the table with corpus/C06/sites_baseline.json and answers a changed package with a directed search. -/
+
+open FqModel.Gen.DecoderSites in
+/-- regenerated fact: `siteFreeFormats` is exactly the list of formats registered by packages with NO fault-capable
+    site outside the decode API — none in the package, none in the helper functions reachable from it — and every
+    row is well-formed (one count per kind, the total covers at least the package's own sites) -/
+theorem site_free_formats :
+    siteFreeFormats = (table.filter fun p => p.total == 0).flatMap (·.formats) ∧
+      (table.all fun p => p.counts.length == kinds.length && decide (p.counts.sum ≤ p.total)) = true := by
+  decide +kernel
+
+/-- HYPOTHESIS about Go and the extractor (trusted base, NOT proved, NOT an axiom — an explicit premise): a decoder
+    whose package has no listed site is a composition of decode-API calls and total pure code, i.e. it behaves like
+    some DProg on every input. `goDecoder f` stands for the real DecodeFn of format `f`. -/
+def SiteFreeIsDProg (goDecoder : String → Decoder) : Prop :=
+  ∀ f ∈ FqModel.Gen.DecoderSites.siteFreeFormats, ∃ (p : DProg) (rootArray : Bool), ∀ x, goDecoder f x = p.toDecoder rootArray x
+
+/-- under that hypothesis every site-free format raises only recoverable errors on every input up to 32 TiB … -/
+theorem site_free_only_recoverable (goDecoder : String → Decoder) (h : SiteFreeIsDProg goDecoder)
+    (f : String) (hf : f ∈ FqModel.Gen.DecoderSites.siteFreeFormats) (x : Input)
+    (hx : Int.ofNat x.bytes.length * 8 ≤ maxAlloc) (v : PanicV) (hp : goDecoder f x = .panic v) :
+    v.recoverable = true := by
+  obtain ⟨p, ra, hpx⟩ := h f hf
+  exact dprog_decoder_only_recoverable p ra x hx v (by rw [← hpx x]; exact hp)
+
+/-- … and a group made of site-free formats (e.g. `fq -d vp9_cfm`) never ends in a runtime fault -/
+theorem site_free_decode_total (goDecoder : String → Decoder) (h : SiteFreeIsDProg goDecoder)
+    (fs : List String) (hfs : ∀ f ∈ fs, f ∈ FqModel.Gen.DecoderSites.siteFreeFormats) (x : Input)
+    (hx : Int.ofNat x.bytes.length * 8 ≤ maxAlloc) (v : PanicV) : decodeGroup (fs.map goDecoder) x ≠ .panic v := by
+  intro hp
+  obtain ⟨d, hd, hdx, hv⟩ := decodeLoop_panic _ _ _ _ _ _ hp
+  simp only [List.mem_map] at hd
+  obtain ⟨f, hf, rfl⟩ := hd
+  have := site_free_only_recoverable goDecoder h f (hfs f hf) x hx v hdx
+  simp [hv] at this
+
+/-- non-vacuity of the hypothesis: an assignment of decoders that are DProgs (the transliterated vp9_cfm for its
+    name, the empty decoder elsewhere) satisfies it — and is not trivial: vp9_cfm fails recoverably on `01 c8 07` -/
+example : SiteFreeIsDProg (fun f => if f = "vp9_cfm" then vp9Prog.toDecoder true else (DProg.done 0).toDecoder false) := by
+  intro f _
+  by_cases hf : f = "vp9_cfm"
+  · exact ⟨vp9Prog, true, fun x => by simp [hf]⟩
+  · exact ⟨.done 0, false, fun x => by simp [hf]⟩
+example : vp9Prog.toDecoder true ⟨[1, 200, 7], false⟩ = .panic .ioError := by decide +kernel
 
 end Props.C06
